@@ -55,6 +55,18 @@ type Config struct {
 	StallG   int
 	StallAt  uint64
 	StallMax uint64
+	// StallAgain > 0: when the first suspension is over (StallMax steps of the others went by) the
+	// same goroutine is suspended once more, StallAgain of its own decision points later: a client
+	// that is slow twice within one operation
+	StallAgain uint64
+	// stretch: the StallG-th foreground goroutine is held back every time it is about to take a
+	// step of the kind StretchTag (a decision-point tag such as "badger.view" or "io.remove"), for
+	// StretchFor steps of the others (or until nothing else can run), at most StretchTimes times:
+	// whatever that client does between "looked something up" and "used it" is stretched, again
+	// and again; everything else is scheduled as under uniform
+	StretchTag   string
+	StretchFor   uint64
+	StretchTimes int
 }
 
 // Result of one simulated execution.
@@ -134,6 +146,11 @@ type Sched struct {
 	pctChange      map[uint64]bool
 	stallG         *G
 	stallOver      bool
+	stalledTwice   bool
+	stretching     bool
+	stretchLeft    uint64
+	stretchCount   int
+	stretchServed  uint64
 	stallSteps     uint64
 	stalledSteps   uint64
 	lowPrio        int64
@@ -500,7 +517,11 @@ func (s *Sched) choose(run []*G) *G {
 				}
 			}
 		}
-		if v := s.stallG; v != nil && (v.done || s.stallSteps > s.cfg.StallMax) {
+		if v := s.stallG; v != nil && !v.done && s.stallSteps > s.cfg.StallMax && s.cfg.StallAgain > 0 && !s.stalledTwice {
+			s.stalledTwice = true
+			s.stallSteps = 0
+			s.cfg.StallAt = v.steps + s.cfg.StallAgain
+		} else if v != nil && (v.done || s.stallSteps > s.cfg.StallMax) {
 			s.stallOver = true
 		} else if v != nil && v.steps >= s.cfg.StallAt {
 			var others []*G
@@ -517,6 +538,43 @@ func (s *Sched) choose(run []*G) *G {
 				s.stalledSteps++
 			} else {
 				s.stallOver = true
+			}
+		}
+	}
+	if s.cfg.Strategy == "stretch" && s.stretchCount <= s.cfg.StretchTimes {
+		if s.stallG == nil {
+			n := 0
+			for _, g := range s.gs {
+				if g.group == 0 && g.id != 0 {
+					if n++; n == s.cfg.StallG {
+						s.stallG = g
+					}
+				}
+			}
+		}
+		if v := s.stallG; v != nil && !v.done {
+			inRun := false
+			var others []*G
+			for _, g := range run {
+				if g == v {
+					inRun = true
+				} else {
+					others = append(others, g)
+				}
+			}
+			switch {
+			case s.stretching && (s.stretchLeft == 0 || len(others) == 0 || !inRun):
+				s.stretching = false
+				s.stretchServed = v.steps + 1
+			case s.stretching:
+				run = others
+				s.stretchLeft--
+				s.stalledSteps++
+			case inRun && len(others) > 0 && s.stretchCount < s.cfg.StretchTimes && v.siteTag == s.cfg.StretchTag && v.steps+1 != s.stretchServed:
+				s.stretching = true
+				s.stretchLeft = s.cfg.StretchFor
+				s.stretchCount++
+				run = others
 			}
 		}
 	}
